@@ -1,7 +1,7 @@
 (* Lemmas for the PageRank model (C15/PageRank.v): qsum toolbox, node-list facts, and the double-sum
    exchange  sum_v sum_{u in incoming v} f u = sum_u out_count u * f u  (NoDup node list).
    Used by C15/PageRankProofs.v. *)
-From Coq Require Import List Arith Bool ZArith QArith Qabs Qminmax Lia Lra Psatz.
+From Coq Require Import List Arith Bool ZArith QArith Qabs Qminmax Lia Lqa.
 From SV Require Import C15.Graph C15.PageRank.
 Import ListNotations.
 Open Scope Q_scope.
